@@ -164,19 +164,34 @@ def corpus_F8(rng):
 
 
 def known_F8(k, f):
-    """F8: only the block-divided (large) path, only 'columns are not in the unit eigenspace', and only when the input
-    spectrum has eigenvalues just below 1 (in [0.99, 1 - 1e-8]) next to eigenvalue 1."""
+    """F8: only the block-divided (large) path, only 'columns are not in the unit eigenspace', and only when the
+    mechanism of F8 is present in the input: some diagonal sub-block (of the size the run used) has an eigenvalue that
+    np.isclose accepts as 1 although it is measurably below 1 (1e-10 < 1 - lambda <= 1.1e-5)."""
     if k["id"] != "F8":
         return False
     what = f.get("what", "")
     if not what.startswith("eigsh_projector_sumrule_large: columns are not in the unit eigenspace"):
         return False
     try:
-        M = np.array((f.get("input") or {}).get("matrix"), dtype=float)
-        w = np.linalg.eigvalsh(M)
+        inp = f.get("input") or {}
+        M = np.array(inp.get("matrix"), dtype=float)
+        n = M.shape[0]
+        t = (inp.get("hooks") or {}).get("eig_target") or min(max(n // 10, 1000), 3000)
+        # the solver works block by connected block; sub-blocks are cut inside each connected block
+        import scipy.sparse as sp
+        from scipy.sparse.csgraph import connected_components
+        _, labels = connected_components(sp.csr_array(M))
+        for lab in np.unique(labels):
+            ids = np.where(labels == lab)[0]
+            B = M[np.ix_(ids, ids)]
+            for b in range(0, len(ids), int(t)):
+                w = np.linalg.eigvalsh(B[b:b + int(t), b:b + int(t)])
+                gap = 1.0 - w
+                if np.any((gap > 1e-10) & (gap <= 1.1e-5)):
+                    return True
     except Exception:
         return False
-    return bool(np.any((w > 0.99) & (w < 1 - 1e-8)))
+    return False
 
 
 # ------------------------------------------------------------------------------------------------ registry
